@@ -898,6 +898,179 @@ theorem wf_specArrayDefine (E : Env) (k : Key) (d : Desc) (t : Bool) (o : Obj) (
   exact wf_arrayDefine E o k d t hwf
 
 
+/-! ## objectPut = §8.12.5, histories -/
+
+/-- [[Put]] on an existing writable data property: otto passes the property's own attributes along with the new
+    value, §8.12.5 step 3 passes the value alone — the same [[DefineOwnProperty]] -/
+theorem dod_full_vo (E : Env) (k : Key) (v : Val) (t : Bool) (o : Obj) (p : PropD)
+    (hl : lookup k o.props = some p) (hw : p.w = true) :
+    Spec.defineOwnDefault E k ⟨some v, some p.w, some p.e, some p.c⟩ t o = Spec.defineOwnDefault E k { v := some v } t o := by
+  obtain ⟨pv, pw, pe, pc⟩ := p
+  simp only at hw; subst hw
+  simp only [Spec.defineOwnDefault, hl]
+  cases pe <;> cases pc <;> cases t <;> simp
+
+/-- the truncation loop does not depend on which of the two descriptors it carries -/
+theorem truncateLoop_irrel (E : Env) (N : Nat) (v : Val) (t : Bool) (cnt : Nat) :
+    ∀ o1 : Obj, LenProp o1 N true →
+      Spec.truncateLoop E N ⟨some v, some true, some false, some false⟩ true t cnt o1
+        = Spec.truncateLoop E N { v := some v } true t cnt o1 := by
+  induction cnt with
+  | zero => intro _ _; rfl
+  | succ c ih =>
+    intro o1 hl
+    simp only [Spec.truncateLoop, bind, M.bind, ← objectDelete_refines]
+    rcases objectDelete_cases (.idx (N + c)) o1 with h1 | ⟨h1, _⟩
+    · rw [h1]
+      simp only [Bool.not_true, Bool.false_eq_true, if_false]
+      apply ih
+      simp only [LenProp]; rw [lookup_erase_ne _ _ _ (by intro e; cases e)]; exact hl
+    · rw [h1]
+      simp only [Bool.not_false, if_true, Bool.not_true, Bool.false_eq_true, if_false]
+      rw [← odp_eq E .length _ false (Or.inl rfl), ← odp_eq E .length _ false (Or.inl rfl)]
+      simp only [M.bind]
+      rw [odp_length_ok E o1 N (N + c + 1) ⟨some (.int ((N + c + 1 : Nat) : Int)), some true, some false, some false⟩ false hl rfl ⟨by simp, by simp⟩,
+          odp_length_ok E o1 N (N + c + 1) { v := some (.int ((N + c + 1 : Nat) : Int)) } false hl rfl ⟨by simp, by simp⟩]
+      rfl
+
+/-- §15.4.5.1 gives the same result for otto's full descriptor and §8.12.5's value-only descriptor -/
+theorem specDefine_full_vo (E : Env) (k : Key) (v : Val) (t : Bool) (o : Obj) (p : PropD) (hwf : WFArr o)
+    (hl : lookup k o.props = some p) (hw : p.w = true) :
+    Spec.arrayDefineOwn E k ⟨some v, some p.w, some p.e, some p.c⟩ t o = Spec.arrayDefineOwn E k { v := some v } t o := by
+  unfold Spec.arrayDefineOwn
+  by_cases hk : k = .length
+  · subst hk
+    obtain ⟨ha, n, w, hlen, hn, hb⟩ := hwf
+    have hp : p = ⟨.int (n : Nat), w, false, false⟩ := by
+      simp only [LenProp] at hlen; rw [hlen] at hl; injection hl with hl; exact hl.symm
+    subst hp
+    simp only at hw; subst hw
+    simp only [if_true]
+    cases hN : Spec.lengthOf E v with
+    | none => rfl
+    | some N =>
+      simp only
+      have hlp : (lookup Key.length o.props).getD ⟨.int 0, false, false, false⟩ = ⟨.int (n : Nat), true, false, false⟩ := by
+        simp only [LenProp] at hlen; simp [hlen]
+      simp only [Spec.arraySetLen, oldLen_eq, arrLength_of o n true hlen, hlp]
+      have hfv := dod_full_vo E .length (.int N) t o ⟨.int (n : Nat), true, false, false⟩ hl rfl
+      simp only at hfv
+      by_cases hge : N ≥ n
+      · simp only [hge, if_true]; exact hfv
+      · simp only [hge, if_false, Bool.true_eq_false, if_false]
+        have e1 : (!decide ((some true : Option Bool) = some false)) = true := by decide
+        have e2 : (!decide ((none : Option Bool) = some false)) = true := by decide
+        simp only [e1, e2, if_true, bind, M.bind, hfv]
+        rw [← odp_eq E .length { v := some (.int N) } t (Or.inl rfl),
+            odp_length_ok E o n N { v := some (.int N) } t hlen rfl ⟨by simp, by simp⟩]
+        simp only [Option.getD_none, Bool.not_true, Bool.false_eq_true, if_false, Spec.truncateTail, bind, M.bind]
+        rw [truncateLoop_irrel E N (.int N) t (n - N) _ (by simp [LenProp, lookup_write_self])]
+  · simp only [hk, if_false]
+    cases hi : Spec.arrayIndex? k.toBytes with
+    | none => exact dod_full_vo E k v t o p hl hw
+    | some index =>
+      simp only [Spec.arrayDefineIdx, bind, M.bind, dod_full_vo E k v false o p hl hw]
+
+/-- **objectPut = §8.12.5 [[Put]]** (with §15.4.5.1 underneath) on a well-formed array, for every key in `KeyOK` -/
+theorem objectPut_refines (E : Env) (k : Key) (v : Val) (t : Bool) (o : Obj) (hwf : WFArr o) (hk : KeyOK k) :
+    objectPut E k v t o = Spec.put E k v t o := by
+  unfold objectPut Spec.put
+  simp only [canPutDetails, Spec.canPut, defineOwnProperty, Spec.defineOwn, hwf.arr, if_true, bind, M.bind]
+  cases hl : lookup k o.props with
+  | some p =>
+    simp only
+    cases hw : p.w with
+    | false => simp
+    | true =>
+      simp only [Bool.not_true, Bool.false_eq_true, if_false]
+      have hreg : ¬ (k = .length ∧ lengthWritable o = false ∧
+          ∃ nv, (⟨some v, some p.w, some p.e, some p.c⟩ : Desc).v = some nv ∧ arrayUint32 E nv = some (arrLength o)) := by
+        intro ⟨h1, h2, _⟩
+        subst h1
+        simp [lengthWritable, hl, hw] at h2
+      rw [arrayDefineOwnProperty_refines E k _ t o hwf hk (Or.inl rfl) hreg]
+      rw [specDefine_full_vo E k v t o p hwf hl hw]
+  | none =>
+    have hkl : k ≠ .length := by
+      intro e; subst e
+      obtain ⟨_, n, w, h, _, _⟩ := hwf
+      simp only [LenProp] at h; rw [h] at hl; cases hl
+    have hreg : ¬ (k = .length ∧ lengthWritable o = false ∧
+        ∃ nv, (⟨some v, some true, some true, some true⟩ : Desc).v = some nv ∧ arrayUint32 E nv = some (arrLength o)) :=
+      fun h => hkl h.1
+    cases hp : protoLookup k o with
+    | none =>
+      simp only
+      cases he : o.ext with
+      | false => simp
+      | true =>
+        simp only [Bool.not_true, Bool.false_eq_true, if_false]
+        rw [arrayDefineOwnProperty_refines E k _ t o hwf hk (Or.inl rfl) hreg]
+    | some pv =>
+      simp only
+      cases he : o.ext with
+      | false => simp
+      | true =>
+        simp only [Bool.not_true, Bool.false_eq_true, if_false]
+        rw [arrayDefineOwnProperty_refines E k _ t o hwf hk (Or.inl rfl) hreg]
+
+
+/-! ### histories: model = specification -/
+
+/-- the same history on the specification side (§15.4.5.1 / §8.12.5 / §8.12.7) -/
+def HOp.specRun (E : Env) : HOp → Obj → Obj
+  | .define k d t, o => stateOf (Spec.defineOwn E k d t o)
+  | .put k v t, o => stateOf (Spec.put E k v t o)
+  | .delete k t, o => stateOf (Spec.delete k t o)
+
+def specRunHist (E : Env) : List HOp → Obj → Obj
+  | [], o => o
+  | op :: ops, o => specRunHist E ops (op.specRun E o)
+
+/-- a step that stays outside the deviation regions of the object layer -/
+def StepOK (E : Env) : HOp → Obj → Prop
+  | .define k d _, o => KeyOK k ∧ (d.v.isSome = true ∨ d.w.isSome = true) ∧
+      ¬ (k = .length ∧ lengthWritable o = false ∧ ∃ nv, d.v = some nv ∧ arrayUint32 E nv = some (arrLength o))
+  | .put k _ _, _ => KeyOK k
+  | .delete _ _, _ => True
+
+def HistOK (E : Env) : List HOp → Obj → Prop
+  | [], _ => True
+  | op :: ops, o => StepOK E op o ∧ HistOK E ops (op.run E o)
+
+theorem step_refines (E : Env) (op : HOp) (o : Obj) (hwf : WFArr o) (hok : StepOK E op o) :
+    op.run E o = op.specRun E o := by
+  cases op with
+  | define k d t =>
+    obtain ⟨h1, h2, h3⟩ := hok
+    simp only [HOp.run, HOp.specRun, defineOwnProperty, Spec.defineOwn, hwf.arr, if_true]
+    rw [arrayDefineOwnProperty_refines E k d t o hwf h1 h2 h3]
+  | put k v t =>
+    simp only [HOp.run, HOp.specRun]
+    rw [objectPut_refines E k v t o hwf hok]
+  | delete k t =>
+    simp only [HOp.run, HOp.specRun, objectDelete_refines]
+
+/-- **history_refines**: every finite history of [[DefineOwnProperty]] / [[Put]] / [[Delete]] on an array that
+    stays outside `index_noncanonical`, `length_same_value_not_writable` and generic descriptors leaves exactly the
+    object that ES5 prescribes — and that object satisfies the length invariant. -/
+theorem history_refines (E : Env) (ops : List HOp) (o : Obj) (hwf : WFArr o) (hok : HistOK E ops o) :
+    runHist E ops o = specRunHist E ops o ∧ WFArr (specRunHist E ops o) := by
+  induction ops generalizing o with
+  | nil => exact ⟨rfl, hwf⟩
+  | cons op ops ih =>
+    obtain ⟨h1, h2⟩ := hok
+    have hwf' : WFArr (op.run E o) := by
+      cases op with
+      | define k d t => exact wf_defineOwn E o k d t hwf
+      | put k v t => exact wf_put E o k v t hwf
+      | delete k t => exact wf_delete o k t hwf
+    have hs := step_refines E op o hwf h1
+    simp only [runHist, specRunHist]
+    rw [← hs]
+    exact ih (op.run E o) hwf' h2
+
+
 /-! ## join -/
 
 theorem foldl_join_prefix (sep p b : List Nat) (l : List (List Nat)) :
@@ -1309,6 +1482,14 @@ example : arrLength (runHist E0
      .put .length (.int 0) false] emptyArr) = 2 := by decide
 
 /-! ## Non-vacuity of the hypotheses -/
+/-- non-vacuity of `HistOK`: a history with canonical keys, a shrinking length write and a pinned element -/
+example : HistOK E0
+    [.put (.idx 3) .null false,
+     .define (.idx 1) ⟨some (.bool true), some true, some true, some false⟩ true,
+     .put .length (.int 0) false, .delete (.idx 1) false] emptyArr := by
+  refine ⟨trivial, ⟨trivial, Or.inl rfl, fun h => by cases h.1⟩, trivial, trivial, trivial⟩
+
+
 
 example : WFv (.num (.fin true 3 0)) ∧ WFv (.int (-5)) ∧ (5 : Nat) < 2^62 :=
   ⟨trivial, by simp [WFv, minInt64, maxInt64], by decide⟩
